@@ -19,6 +19,21 @@ def scenario_strategy(tier):
     return c08.pipeline_strategy(tier).map(finite)
 
 
+def strclass_strategy(tier):
+    """scenarios whose schedulers key their classes by strings and keep several classes backlogged: whatever iterates over a
+    set/dict of class ids depends on the interpreter's string-hash seed"""
+    sched = st.fixed_dictionaries({"type": st.sampled_from(["DRR", "WFQ", "VC", "DRR"]), "rate": st.sampled_from([8192, 8192 * 4]),
+                                   "strcls": st.sampled_from([1, 2, 2]), "nouts": st.just(1), "default": st.just(False),
+                                   "qlimit": st.just(50), "server": st.sampled_from(["DRR", "WFQ", "VirtualClock"])})
+    gen = st.fixed_dictionaries({"gaps": st.lists(st.sampled_from([0, 0, 0, 0.0625, 0.125]), min_size=3, max_size=8),
+                                 "sizes": st.lists(st.sampled_from([64, 512, 1024, 1500]), min_size=1, max_size=3),
+                                 "d0": st.sampled_from([0, 0, 0.5])})
+    return st.fixed_dictionaries({
+        "gens": st.lists(gen, min_size=3, max_size=5), "chain": st.lists(sched, min_size=1, max_size=2), "fanout": st.none(),
+        "split": st.just(False), "by_src": st.booleans(), "inter": st.booleans(), "finite": st.just(True),
+        "monitor": st.one_of(st.none(), st.just([0.5, 1])), "seed": st.integers(0, 10 ** 6)})
+
+
 def trace_of(case, driver=None):
     tr = []
     c08.run_pipeline(case, driver=driver, trace=tr)
